@@ -299,7 +299,8 @@ func c07BStep(t *rapid.T) kit.Argv {
 		return kit.A(pick(t, "anytype",
 			[]string{"GETEX", k, "EX", "100"}, []string{"GETEX", k, "PERSIST"}, []string{"GETEX", k, "PXAT", "1000"}, []string{"GETEX", k, "PX", "5000000"}, []string{"GETEX", k, "EXAT", "4102444800"}, []string{"GETEX", k},
 			[]string{"GETDEL", k}, []string{"GETSET", k, "v"}, []string{"APPEND", k, "x"}, []string{"INCR", k}, []string{"SETRANGE", k, "0", "x"}, []string{"INCRBYFLOAT", k, "1"},
-			[]string{"RPUSH", k, "x"}, []string{"LPOP", k}, []string{"HSET", k, "f", "v"}, []string{"HDEL", k, "f"}, []string{"SADD", k, "m"}, []string{"SREM", k, "m"}, []string{"SETBIT", k, "1", "1"},
+			[]string{"RPUSH", k, "x"}, []string{"LPOP", k}, []string{"HSET", k, "f", "v"}, []string{"HDEL", k, "f"}, []string{"SADD", k, "m"}, []string{"SREM", k, "m"}, []string{"SETBIT", k, "1", "1"}, []string{"SETBIT", k, "9", "1"}, []string{"SETBIT", k, "15", "0"}, []string{"SETBIT", k, "100", "1"}, []string{"BITFIELD", k, "SET", "u8", "8", "65"},
+			[]string{"BITFIELD", k, "INCRBY", "u4", "12", "1"}, []string{"BITFIELD", k, "SET", "u8", "#3", "1"}, []string{"SETRANGE", k, "1", "z"}, []string{"SETRANGE", k, "5", "zz"}, []string{"BITFIELD", k, "OVERFLOW", "FAIL", "INCRBY", "u2", "14", "3"},
 			[]string{"LMOVE", "kl", k, "LEFT", "RIGHT"}, []string{"SMOVE", "kz", k, "1"}, []string{"SUNIONSTORE", "kz2", "kz", k}, []string{"SETNX", k, "v"}, []string{"HINCRBYFLOAT", k, "f", "inf"},
 		)...)
 	case 0:
